@@ -772,7 +772,7 @@ def run(ctx):
         "a Python dict is modelled as an insertion-ordered association list with unique keys (invariant proved)",
         "OS: the tracker reads EOF exactly when every client has closed the pipe (exit or SIGKILL) -- sampled with real "
         "processes, not proved; file-system effect of os.unlink / shutil.rmtree / sem_unlink",
-        "client side (ResourceTracker.register/maybe_unlink/unregister, TemporaryResourcesManager) is sampled, not modelled",
+        "client side: TemporaryResourcesManager is modelled (Model/TempManager.v) and tied event by event with instrumented calls (joblib.disk.RM_SUBDIRS_RETRY_TIME shortened from outside, tracker frozen with SIGSTOP); ResourceTracker.register/maybe_unlink/unregister and the reducer/Parallel integration are sampled",
     ]
     proofs_ok = ctx.standard_proof_stage("C20", search=lambda: search_failing(ctx))
 
@@ -950,17 +950,17 @@ def run(ctx):
 def replay(ctx, path):
     obj = json.load(open(path))
     rep = obj.get("replay", obj)
-    if rep.get("kind") == "clients" or "scenario" in rep:
-        sc = rep["scenario"]
-        r = run_impl_cases(ctx, [sc], script="c20_clients.py", workers=1)[0]
-        bad, inc = judge_clients(sc, r)
-        print("replay (client sample):", json.dumps(sc), "=>", bad or inc or "property holds")
-        return 1 if bad else 0
     if rep.get("kind") == "manager":
         sc = rep["scenario"]
         r = run_impl_cases(ctx, [sc], script="c20_manager.py", workers=1)[0]
         bad, inc = judge_manager(sc, r)
         print("replay (TemporaryResourcesManager):", json.dumps(sc), "=>", bad or inc or "property holds")
+        return 1 if bad else 0
+    if rep.get("kind") == "clients" or "scenario" in rep:
+        sc = rep["scenario"]
+        r = run_impl_cases(ctx, [sc], script="c20_clients.py", workers=1)[0]
+        bad, inc = judge_clients(sc, r)
+        print("replay (client sample):", json.dumps(sc), "=>", bad or inc or "property holds")
         return 1 if bad else 0
     if rep.get("kind") == "parallel-numpy":
         r = run_np(ctx, rep["mode"])
